@@ -175,9 +175,15 @@ class Check:
             open(proj, "w").write(text)
             sh(["coq_makefile", "-f", "_CoqProject", "-o", "Makefile"], cwd=COQ, timeout=120)
 
-    def forbidden_scan(self):
+    def forbidden_scan(self, props_file=None):
         bad = []
-        for p in glob.glob(os.path.join(COQ, "**", "*.v"), recursive=True):
+        files = glob.glob(os.path.join(COQ, "**", "*.v"), recursive=True)
+        if props_file:
+            rc, out, err = sh(["coqdep", "-Q", ".", "Verif", "-sort", props_file], cwd=COQ, timeout=120)
+            deps = [os.path.join(COQ, x.replace("./", "")) for x in out.split() if x.endswith(".v")]
+            if rc == 0 and deps:
+                files = deps
+        for p in files:
             src = open(p, errors="replace").read()
             src = re.sub(r"\(\*.*?\*\)", " ", src, flags=re.S)
             for i, line in enumerate(src.splitlines(), 1):
@@ -192,7 +198,7 @@ class Check:
         theorems = re.findall(r"^\s*(?:Theorem|Lemma|Corollary)\s+(\w+)", open(src).read(), flags=re.M)
         self.cov["obligations"] = len(theorems)
         self.cov["checker_cmd"] = "cd /verif/coq && make -k -j%d %s   (coqc 8.16.1, full .vo build)" % (NPROC, target)
-        bad = self.forbidden_scan()
+        bad = self.forbidden_scan(props_file)
         if bad:
             self.broke("proof", "forbidden-token", "\n".join(bad))
         with Lock("coq"):
